@@ -33,6 +33,32 @@ type anchorSet struct {
 	mu     sync.Mutex
 	names  map[string]bool
 	idents map[string]bool
+	// pinned: "pkgpath.name" of the functions of the confirmed tree that carry an anchor identifier (rules/anchors_gen.go);
+	// pinnedBare: their bare names. A function whose bare name is an anchor identifier of functions in *other* packages
+	// only (a new helper that happens to be called like an anchor elsewhere) is not an anchor.
+	pinned     map[string]bool
+	pinnedBare map[string]bool
+}
+
+// SetPinned installs the recorded anchor functions ("pkgpath.name").
+func (a *anchorSet) SetPinned(keys []string) {
+	a.mu.Lock()
+	defer a.mu.Unlock()
+	a.pinned, a.pinnedBare = map[string]bool{}, map[string]bool{}
+	for _, k := range keys {
+		a.pinned[k] = true
+		if i := strings.LastIndexByte(k, '.'); i >= 0 {
+			a.pinnedBare[k[i+1:]] = true
+		}
+	}
+}
+
+// AnchorKey is the key under which a function is recorded by SetPinned.
+func AnchorKey(f *Fn) string {
+	if f.Decl == nil || f.Pkg == nil {
+		return ""
+	}
+	return f.Pkg.PkgPath + "." + f.Decl.Name.Name
 }
 
 // Anchors is the process-wide anchor record.
@@ -79,6 +105,9 @@ func (a *anchorSet) Snapshot() (names, idents []string) {
 	return
 }
 
+// Has reports whether the normalisation treats f as an anchor.
+func (a *anchorSet) Has(f *Fn) bool { return a.has(f) }
+
 func (a *anchorSet) has(f *Fn) bool {
 	a.mu.Lock()
 	defer a.mu.Unlock()
@@ -86,6 +115,11 @@ func (a *anchorSet) has(f *Fn) bool {
 		return true
 	}
 	if f.Decl != nil && a.idents[f.Decl.Name.Name] {
+		if len(a.pinned) > 0 {
+			// the table of the confirmed tree decides: a function that is not in it only shares the name of a variable,
+			// a field or a function of another package that the rules mention
+			return a.pinned[AnchorKey(f)]
+		}
 		return true
 	}
 	return false
@@ -99,6 +133,7 @@ type NormInfo struct {
 	Expanded []string `json:"expanded_calls,omitempty"` // "caller <- helper"
 	Removed  []string `json:"helpers_fully_expanded,omitempty"`
 	Fallback string   `json:"fallback,omitempty"`
+	Skipped  []string `json:"files_left_unexpanded,omitempty"` // files whose expansion did not type-check in some round
 }
 
 // LoadNormalised loads the tree, lets `dry` touch the rules once (to record the
@@ -158,6 +193,22 @@ func LoadNormalised(opts LoadOpts, dry func(*Prog)) (*Prog, error) {
 				fmt.Fprintln(os.Stderr, "normalise: with removals:", err)
 			}
 			np, err = try(false)
+			// an expansion that does not type-check spoils only its own file: the edits of the files named in the
+			// errors are dropped and the rest of the round is kept
+			for attempt := 0; err != nil && attempt < 3; attempt++ {
+				dropped := 0
+				for name := range res.files {
+					if strings.Contains(err.Error(), name+":") {
+						delete(res.files, name)
+						info.Skipped = append(info.Skipped, fmt.Sprintf("round %d: %s (%s)", round, strings.TrimPrefix(name, p.Dir+"/"), firstLine(err.Error())))
+						dropped++
+					}
+				}
+				if dropped == 0 || len(res.files) == 0 {
+					break
+				}
+				np, err = try(false)
+			}
 			if err != nil {
 				info.Fallback = fmt.Sprintf("round %d: expanded sources do not type-check (%v); analysing the previous form", round, firstLine(err.Error()))
 				if round == 0 {
@@ -349,6 +400,28 @@ func (in *inliner) eligible(f *Fn) bool {
 	return ok
 }
 
+// eligibleGo: f may be expanded as the body of `go f(...)`: unexported, no anchor, no results, not recursive, not
+// generic; anything else (select, defer, labels) is fine because the body is not spliced into other statements.
+func (in *inliner) eligibleGo(f *Fn) bool {
+	if f.Decl == nil || f.Obj == nil || f.Body == nil || ast.IsExported(f.Decl.Name.Name) || Anchors.has(f) {
+		return false
+	}
+	sig, _ := f.Obj.Type().(*types.Signature)
+	if sig == nil || sig.Results().Len() != 0 || sig.Variadic() || sig.TypeParams().Len() > 0 || sig.RecvTypeParams().Len() > 0 {
+		return false
+	}
+	rec := false
+	ast.Inspect(f.Body, func(n ast.Node) bool {
+		if c, ok := n.(*ast.CallExpr); ok {
+			if o := typeutil.StaticCallee(f.Info(), c); o != nil && o == f.Obj {
+				rec = true
+			}
+		}
+		return !rec
+	})
+	return !rec
+}
+
 func (in *inliner) eligible1(f *Fn) bool {
 	if f.Decl == nil || f.Obj == nil || f.Body == nil {
 		return false
@@ -361,7 +434,7 @@ func (in *inliner) eligible1(f *Fn) bool {
 		return false
 	}
 	sig, _ := f.Obj.Type().(*types.Signature)
-	if sig == nil || sig.Variadic() || sig.TypeParams().Len() > 0 || sig.RecvTypeParams().Len() > 0 {
+	if sig == nil || sig.TypeParams().Len() > 0 || sig.RecvTypeParams().Len() > 0 {
 		return false
 	}
 	if f.Decl.Recv != nil {
@@ -455,8 +528,15 @@ func planRound(p *Prog, round int) roundPlan {
 					return true
 				}
 				cf := p.FnOf(fo)
-				if cf == nil || cf.Pkg != pkg || !in.eligible(cf) {
+				if cf == nil || cf.Pkg != pkg {
 					return true
+				}
+				if !in.eligible(cf) {
+					// the function started by a go statement moves as a whole into a literal: its returns, defers,
+					// selects and labels stay valid there
+					if gs, isGo := p.parents[call].(*ast.GoStmt); !isGo || gs.Call != call || !in.eligibleGo(cf) {
+						return true
+					}
 				}
 				var owner *ast.FuncDecl
 				for m := ast.Node(call); m != nil; m = p.parents[m] {
@@ -1069,6 +1149,77 @@ func (in *inliner) expand(s callSite) (eds []textEdit, a, b token.Pos, ok bool) 
 		return in.text(from, call.Pos()) + with + in.text(call.End(), to)
 	}
 	switch st := stmt.(type) {
+	case *ast.GoStmt:
+		// `go h(a, b)` with arguments that are variables nothing assigns after their definition is
+		// `go func() { <body of h> }()`: the goroutine body is seen where it is started
+		if !inList || st.Call != call || s.owner == nil {
+			return nil, 0, 0, false
+		}
+		// only for a function that does nothing but start the goroutine (`func run(..) { go loop(..) }`): elsewhere the
+		// started function stays a function of its own for the rules
+		if s.owner.Body == nil || len(s.owner.Body.List) != 1 || s.owner.Body.List[0] != ast.Stmt(st) {
+			return nil, 0, 0, false
+		}
+		for _, a := range call.Args {
+			id, isId := ast.Unparen(a).(*ast.Ident)
+			if !isId {
+				return nil, 0, 0, false
+			}
+			v, isVar := info.Uses[id].(*types.Var)
+			if !isVar || v.IsField() {
+				return nil, 0, 0, false
+			}
+			assigned := false
+			ast.Inspect(s.owner, func(n ast.Node) bool {
+				switch x := n.(type) {
+				case *ast.AssignStmt:
+					for _, l := range x.Lhs {
+						if lid, ok := ast.Unparen(l).(*ast.Ident); ok && (info.Uses[lid] == types.Object(v)) {
+							assigned = true
+						}
+					}
+				case *ast.IncDecStmt:
+					if lid, ok := ast.Unparen(x.X).(*ast.Ident); ok && info.Uses[lid] == types.Object(v) {
+						assigned = true
+					}
+				case *ast.UnaryExpr:
+					if lid, ok := ast.Unparen(x.X).(*ast.Ident); ok && x.Op == token.AND && info.Uses[lid] == types.Object(v) {
+						assigned = true
+					}
+				case *ast.RangeStmt:
+					for _, kv := range []ast.Expr{x.Key, x.Value} {
+						if lid, ok := kv.(*ast.Ident); ok && x.Tok == token.ASSIGN && info.Uses[lid] == types.Object(v) {
+							assigned = true
+						}
+					}
+				}
+				return true
+			})
+			if assigned {
+				return nil, 0, 0, false
+			}
+		}
+		if sel, isSel := ast.Unparen(call.Fun).(*ast.SelectorExpr); isSel {
+			if _, isId := ast.Unparen(sel.X).(*ast.Ident); !isId {
+				return nil, 0, 0, false
+			}
+		}
+		if nres == 0 {
+			body, _ := b0.build(modeReturn, nil) // returns stay returns of the literal
+			return []textEdit{{start: in.off(st.Pos()), end: in.off(st.End()), text: "go func() {\n" + body + "}()"}}, st.Pos(), st.End(), true
+		}
+		if !in.eligible(s.callee) {
+			return nil, 0, 0, false
+		}
+		{
+			body, label := b0.build(modeDiscard, nil)
+			txt := "go func() {\n" + body
+			if label != "" {
+				txt += label + ":\n{\n}\n"
+			}
+			txt += "}()"
+			return []textEdit{{start: in.off(st.Pos()), end: in.off(st.End()), text: txt}}, st.Pos(), st.End(), true
+		}
 	case *ast.ExprStmt:
 		if !inList {
 			return nil, 0, 0, false
@@ -1370,16 +1521,17 @@ type bodyBuilder struct {
 	id   int
 	nres int
 
-	sig        *types.Signature
-	params     []*types.Var // receiver first
-	args       []ast.Expr
-	argText    []string
-	subst      map[*types.Var]string // parameters replaced by argument text
-	binds      []string              // "name" of bound parameters, parallel to bindArgs
-	bindArgs   []string
-	localNames map[string]bool
-	declare    []bool // direct targets: which results need a declaration (nil: temporaries, all declared)
-	reuse      map[int]bool // direct targets that stand for the helper's named result of the same name
+	sig         *types.Signature
+	params      []*types.Var // receiver first
+	args        []ast.Expr
+	argText     []string
+	subst       map[*types.Var]string // parameters replaced by argument text
+	binds       []string              // "name" of bound parameters, parallel to bindArgs
+	bindArgs    []string
+	localNames  map[string]bool
+	declare     []bool       // direct targets: which results need a declaration (nil: temporaries, all declared)
+	reuse       map[int]bool // direct targets that stand for the helper's named result of the same name
+	spreadEdits []posEdit    // `args...` of a forwarded variadic parameter -> the extra arguments of the call
 }
 
 // isNamedResult: the helper's i-th result is named `name` and no other parameter or result has that name.
@@ -1475,15 +1627,51 @@ func (b *bodyBuilder) prepare() bool {
 		}
 		b.argText = append(b.argText, txt)
 	}
-	if len(call.Args) != b.sig.Params().Len() {
+	nfix := b.sig.Params().Len()
+	if b.sig.Variadic() {
+		// a variadic parameter that the body only forwards (`g(x, args...)`): the extra arguments take its place
+		nfix--
+		vpv := f.Param(nfix)
+		if vpv == nil || len(call.Args) < nfix || (call.Ellipsis.IsValid() && len(call.Args) != nfix+1) {
+			return false
+		}
+		var parts []string
+		for _, a := range call.Args[nfix:] {
+			if !callFree(a) {
+				return false // its evaluation would move
+			}
+			parts = append(parts, in.text(a.Pos(), a.End()))
+		}
+		spread := strings.Join(parts, ", ")
+		if call.Ellipsis.IsValid() {
+			spread += "..."
+		}
+		okFwd := true
+		ast.Inspect(f.Body, func(n ast.Node) bool {
+			id, isId := n.(*ast.Ident)
+			if !isId || b.info.Uses[id] != types.Object(vpv) {
+				return true
+			}
+			c, isCall := in.p.parents[id].(*ast.CallExpr)
+			if !isCall || !c.Ellipsis.IsValid() || len(c.Args) == 0 || c.Args[len(c.Args)-1] != ast.Expr(id) {
+				okFwd = false
+				return true
+			}
+			b.spreadEdits = append(b.spreadEdits, posEdit{id.Pos(), c.Ellipsis + 3, spread})
+			return true
+		})
+		if !okFwd {
+			return false
+		}
+	} else if len(call.Args) != nfix {
 		return false // f(g()) multi-value spread
 	}
-	for i := 0; i < b.sig.Params().Len(); i++ {
+	for i := 0; i < nfix; i++ {
 		b.params = append(b.params, f.Param(i))
 		b.args = append(b.args, call.Args[i])
 		b.argText = append(b.argText, in.text(call.Args[i].Pos(), call.Args[i].End()))
 	}
-	if call.Ellipsis.IsValid() {
+	if call.Ellipsis.IsValid() && !b.sig.Variadic() {
 		return false
 	}
 	// names declared inside the helper body
@@ -1857,6 +2045,20 @@ func (b *bodyBuilder) render(from, to token.Pos, extra []posEdit) string {
 	in := b.in
 	var eds []posEdit
 	eds = append(eds, extra...)
+	for _, se := range b.spreadEdits {
+		if se.a >= from && se.b <= to {
+			covered := false
+			for _, e := range extra {
+				if se.a >= e.a && se.b <= e.b {
+					covered = true
+				}
+			}
+			if !covered {
+				eds = append(eds, se)
+				extra = append(extra, se)
+			}
+		}
+	}
 	inExtra := func(p token.Pos) bool {
 		for _, e := range extra {
 			if p >= e.a && p < e.b {
@@ -2002,6 +2204,14 @@ func (b *bodyBuilder) build(mode int, tmp func(int) string) (string, string) {
 					}
 				}
 				if len(ts) > 0 {
+					// `_ = nil` does not compile: a nil stored into a blank target is given the result's type
+					for i := range ts {
+						if ts[i] == "_" && i < len(rs2) && strings.TrimSpace(rs2[i]) == "nil" && len(rs2) == len(ts) && len(ts) == b.nres {
+							if tt, ok := b.typeText(b.sig.Results().At(i).Type()); ok {
+								rs2[i] = "(" + tt + ")(nil)"
+							}
+						}
+					}
 					txt = strings.Join(ts, ", ") + " = " + strings.Join(rs2, ", ")
 				}
 			}
